@@ -506,7 +506,8 @@ def pytree_cases(ctx, it):
         out[kind] = vals
     case = {"kind": "pytree-vs-flat", "fact": fact, "q": q, "lin": lin, "field": field.describe(), "u0": u0.tolist(), "dt": dt, "atol": atol, "rtol": rtol, "structure": "{'a': (1,), 'b': (2,)}"}
     for (k, a), (_, b) in zip(out["flat"], out["tree"]):
-        dev = abs(a - b) / max(abs(a), 1e-300)
+        # (both +inf: an error estimate that vanishes exactly - equal, not NaN)
+        dev = 0.0 if a == b else abs(a - b) / max(abs(a), 1e-300)
         ctx.dev("pytree.error_power", dev, 1e-12, case=dict(case, estimator=k), sig=f"pytree:{fact}:{k['est']}",
                 what=f"error_power for a dict-valued state ({b!r}) differs from the flat-state value ({a!r}) by {dev:.2e}")
     ctx.count("pytree-vs-flat estimator calls")
